@@ -232,6 +232,19 @@ theorem wf_mulVecEntries (rows : List (Row K)) (v : List (Entry K)) :
     WF rows.length (mulVecEntries rows v) :=
   ⟨sorted_mulVecEntries rows v, fun _ hx => (mem_mulVecEntries hx).1⟩
 
+/-- inversion of a successful `mulVec`, for any scalar type -/
+theorem mulVec_ok_inv {α : Type} [Scalar α] {m : CSM α} {v r : Vec α} (h : mulVec m v = .ok r) :
+    m.major = m.minor ∧ m.major = v.dim ∧ r = ⟨m.major, mulVecEntries m.rows v.entries⟩ := by
+  unfold mulVec CSM.dim at h
+  by_cases hsq : m.major = m.minor
+  · by_cases hd : m.major = v.dim
+    · have hd' : m.minor = v.dim := hsq ▸ hd
+      simp [hsq, hd'] at h
+      exact ⟨hsq, hd, by rw [← h, ← hd', hsq]⟩
+    · have hd' : ¬ m.minor = v.dim := fun hc => hd (hsq.trans hc)
+      simp [hsq, hd'] at h
+  · simp [hsq] at h
+
 theorem wf_getD {dim : Nat} {rows : List (Row K)} (h : ∀ r ∈ rows, WF dim r) (i : Nat) :
     WF dim (rows.getD i []) := by
   by_cases hi : i < rows.length
